@@ -4,6 +4,8 @@ Theorems about `finishClass` (the `cls(**init_kwargs)` step of the generated loa
 with exactly the converted values of the keys present in the document.
 -/
 import DW.Model.Load
+import DW.Model.LoadV1
+import DW.Lemmas.V1
 
 namespace DW.Props.C09
 open DW
@@ -137,5 +139,128 @@ theorem C09_success_only_if_complete (ci : ClassInfo) (kwargs : List (S × PyVal
   · exact hm
   · rw [C09_missing_exact ci kwargs o hc hm] at h
     simp at h
+
+/-! ### v1 engine
+
+The generated v1 function looks every constructor field up under its key(s), binds a local for each one found, and
+converts the `UnboundLocalError` / `TypeError` of `cls(...)` into MissingFields (`check_and_raise_missing_fields`). -/
+
+open DW.Lemmas.V1 in
+/-- the constructor fields without default none of whose keys is present in the document (declaration order) -/
+def v1RequiredAbsent (eff : MetaCfg) (ci : ClassInfo) (kvs : List (S × JVal)) : List S :=
+  (ci.fields.filter (fun f => f.init && f.dflt.isNone && !present eff kvs f)).map (·.name)
+
+/-- without a catch-all field the last step of the v1 function is the `cls(**init_kwargs)` step the theorems above speak of -/
+theorem finishKw_noCatchAll (ci : ClassInfo) (kw : List (S × PyVal)) (b : Bool) (ca : List (PyVal × PyVal)) (o : JVal)
+    (hc : noCatchAll ci) : finishKw ci (v1WithCatchAll ci kw b ca) = finishClass ci kw [] o := by
+  exact DW.Lemmas.V1.finishKw_eq_finishClass ci kw b ca o hc
+
+open DW.Lemmas.V1 in
+/-- what `cls(...)` finds missing after the v1 field loop: exactly the required constructor fields whose key is absent -/
+theorem v1_missingInit_eq (fl : S → JVal → LRes) (eff : MetaCfg) (ci : ClassInfo) (kvs : List (S × JVal))
+    (kw : List (S × PyVal)) (n : Nat) (hnames : (ci.fields.map (·.name)).Nodup) (hc : noCatchAll ci)
+    (hok : v1Fields fl eff ci kvs ci.fields = .ok (kw, n)) :
+    missingInit ci (kw.map (·.1)) = ci.fields.filter (fun f => f.init && f.dflt.isNone && !present eff kvs f) := by
+  obtain ⟨hkw, _⟩ := v1Fields_ok fl eff ci kvs ci.fields kw n hok
+  unfold missingInit
+  apply List.filter_congr
+  intro f hf
+  have hnc : f.isCatchAll = false := by
+    unfold noCatchAll at hc
+    rw [List.find?_eq_none] at hc
+    cases hfc : f.isCatchAll with
+    | false => rfl
+    | true => exact absurd hfc (hc f hf)
+  have hprov : (kw.map (·.1)).contains f.name = (f.init && present eff kvs f) := by
+    rw [hkw]
+    cases hp : (f.init && present eff kvs f) with
+    | true =>
+      simp only [Bool.and_eq_true] at hp
+      apply List.contains_iff_mem.mpr
+      apply List.mem_map.mpr
+      exact ⟨f, by simp [List.mem_filter, hf, hp.1, hp.2, hnc], rfl⟩
+    | false =>
+      cases hcn : (List.map (fun x => x.name)
+          (List.filter (present eff kvs) (List.filter (fun f => f.init && !f.isCatchAll) ci.fields))).contains f.name with
+      | false => rfl
+      | true =>
+        obtain ⟨g, hg, hgn⟩ := List.mem_map.mp (List.contains_iff_mem.mp hcn)
+        simp only [List.mem_filter, Bool.and_eq_true] at hg
+        have : g = f := eq_of_name_eq (·.name) ci.fields hnames g f hg.1.1 hf hgn
+        subst this
+        simp [hg.1.2.1, hg.2] at hp
+  rw [hprov]
+  cases f.init <;> cases f.dflt.isNone <;> cases present eff kvs f <;> rfl
+
+/-- C09, v1 engine: when a required constructor field is absent — and the class neither rejects unknown keys nor has a
+catch-all field — the outcome is MissingFields naming the class and *exactly* the required constructor fields none of whose
+keys is in the document, in declaration order, whatever else the document holds. -/
+theorem C09_v1_missing_exact (fl : S → JVal → LRes) (eff : MetaCfg) (ci : ClassInfo) (kvs : List (S × JVal))
+    (kw : List (S × PyVal)) (n : Nat) (hnames : (ci.fields.map (·.name)).Nodup) (hc : noCatchAll ci)
+    (hraise : eff.v1OnUnknown ≠ some .raise)
+    (hok : v1Fields fl eff ci kvs ci.fields = .ok (kw, n))
+    (hm : v1RequiredAbsent eff ci kvs ≠ []) :
+    v1ClassWith fl eff ci (.dict kvs) = .error (.missingFields ci.name (v1RequiredAbsent eff ci kvs)) := by
+  have hr : (eff.v1OnUnknown == some KeyAct.raise) = false := by
+    cases h : eff.v1OnUnknown with
+    | none => rfl
+    | some a => cases a <;> simp_all
+  simp only [v1ClassWith, hok, bind, Except.bind, v1Finish, hr, Bool.and_false, Bool.false_and, Bool.false_eq_true, ↓reduceIte]
+  rw [finishKw_noCatchAll _ _ _ _ (.dict kvs) hc]
+  have hmi := v1_missingInit_eq fl eff ci kvs kw n hnames hc hok
+  have : requiredMissing ci (kw.map (·.1)) = v1RequiredAbsent eff ci kvs := by
+    unfold requiredMissing v1RequiredAbsent
+    rw [hmi]
+  rw [← this] at hm ⊢
+  exact C09_missing_exact ci kw (.dict kvs) hc hm
+
+open DW.Lemmas.V1 in
+/-- init=False fields are never demanded by the v1 engine: every name in the list belongs to a *constructor* field without
+default whose key is absent from the document. -/
+theorem C09_v1_init_false_never_demanded (eff : MetaCfg) (ci : ClassInfo) (kvs : List (S × JVal)) (nme : S)
+    (h : nme ∈ v1RequiredAbsent eff ci kvs) :
+    ∃ f ∈ ci.fields, f.name = nme ∧ f.init = true ∧ f.dflt = none ∧ present eff kvs f = false := by
+  unfold v1RequiredAbsent at h
+  simp only [List.mem_map, List.mem_filter, Bool.and_eq_true, Option.isNone_iff_eq_none, Bool.not_eq_true'] at h
+  obtain ⟨f, ⟨hf, hp⟩, rfl⟩ := h
+  exact ⟨f, hf, rfl, hp.1.1, hp.1.2, hp.2⟩
+
+/-- the field loop itself never hands an init=False field (or the catch-all field) to the constructor -/
+theorem C09_v1_kwargs_constructor_fields_only (fl : S → JVal → LRes) (eff : MetaCfg) (ci : ClassInfo) (kvs : List (S × JVal))
+    (kw : List (S × PyVal)) (n : Nat) (hok : v1Fields fl eff ci kvs ci.fields = .ok (kw, n)) (p : S × PyVal) (hp : p ∈ kw) :
+    ∃ f ∈ ci.fields, f.name = p.1 ∧ f.init = true ∧ f.isCatchAll = false ∧ DW.Lemmas.V1.present eff kvs f = true := by
+  obtain ⟨hkw, _⟩ := DW.Lemmas.V1.v1Fields_ok fl eff ci kvs ci.fields kw n hok
+  have : p.1 ∈ kw.map (·.1) := List.mem_map.mpr ⟨p, hp, rfl⟩
+  rw [hkw] at this
+  obtain ⟨f, hf, hn⟩ := List.mem_map.mp this
+  simp only [List.mem_filter, Bool.and_eq_true, Bool.not_eq_true'] at hf
+  exact ⟨f, hf.1.1, hn, hf.1.2.1, hf.1.2.2, hf.2⟩
+
+/-- Conversely the v1 load gets past the MissingFields check exactly when no required key is absent; on success the instance
+has the declared fields in order, each present field holding the converted value and each omitted one its default. -/
+theorem C09_v1_success_fields (fl : S → JVal → LRes) (eff : MetaCfg) (ci : ClassInfo) (kvs : List (S × JVal))
+    (kw : List (S × PyVal)) (n : Nat) (hnames : (ci.fields.map (·.name)).Nodup) (hc : noCatchAll ci)
+    (hraise : eff.v1OnUnknown ≠ some .raise)
+    (hok : v1Fields fl eff ci kvs ci.fields = .ok (kw, n))
+    (ci' : ClassInfo) (out : List (S × PyVal)) (h : v1ClassWith fl eff ci (.dict kvs) = .ok (.inst ci' out)) :
+    v1RequiredAbsent eff ci kvs = [] ∧ ci' = ci ∧ out.map (·.1) = ci.fields.map (·.name) ∧
+      ∀ p ∈ out, ∃ f ∈ ci.fields, p.1 = f.name ∧ fieldValue kw f = some p.2 := by
+  have hr : (eff.v1OnUnknown == some KeyAct.raise) = false := by
+    cases h : eff.v1OnUnknown with
+    | none => rfl
+    | some a => cases a <;> simp_all
+  constructor
+  · by_cases hm : v1RequiredAbsent eff ci kvs = []
+    · exact hm
+    · rw [C09_v1_missing_exact fl eff ci kvs kw n hnames hc hraise hok hm] at h
+      simp at h
+  · simp only [v1ClassWith, hok, bind, Except.bind, v1Finish, hr, Bool.and_false, Bool.false_and, Bool.false_eq_true, ↓reduceIte] at h
+    rw [finishKw_noCatchAll _ _ _ _ (.dict kvs) hc] at h
+    exact C09_success_fields ci kw (.dict kvs) hc ci' out h
+
+/-- omissions at any nesting depth: a MissingFields raised while converting a nested value travels through the handlers of
+the enclosing classes unchanged (it keeps naming the nested class and its own missing fields) -/
+theorem C09_v1_nested_missing_unchanged (c f c' : S) (ms : List S) :
+    v1SetAttr c f (.missingFields c' ms) = .missingFields c' ms := rfl
 
 end DW.Props.C09
